@@ -438,6 +438,12 @@ class Ctx:
             "gen_tables_rewritten_this_run": self.gen_changed,
             "known_findings_reproduced": known_keys,
         }
+        # a level's own keys are only meaningful when measured > 0; otherwise leave
+        # them out so that the schema's generic (evaluations/distinct) rule applies
+        if cov["programs"] == 0:
+            cov.pop("programs"); cov.pop("disagreements_checked")
+        if cov["obligations"] == 0:
+            cov.pop("obligations"); cov.pop("discharged")
         ev = {
             "property_id": self.pid,
             "tier": self.tier,
